@@ -227,6 +227,28 @@ def consumer(rng, i):
     return {"kind": "consumer", "cfg": {}, "steps": steps}
 
 
+def consumer_drop(rng, i):
+    """A Consumer is dropped while nobody else holds its receiver (Drop cancels it); the
+    connection must go on working."""
+    n = rng.choice([1, 2])
+    steps, ids = opens(n, rng.sample(range(1, 20), n))
+    hs = NAMES[:n]
+    mid = 1000 * (i % 2000)
+    for r in range(rng.randrange(3, 9)):
+        h = rng.choice(hs)
+        c = "k%d" % r
+        steps.append({"do": "consume", "h": h, "as": c, "keep": False})
+        if rng.random() < 0.4:
+            mid += 1
+            steps.append(srv(deliver(ids[h], c, mid, 4, [4])))
+        steps.append({"do": "dropc", "h": h, "c": c})
+        steps.append(op(h, rng.choice(["qos", "declare"])))
+    for h in hs:
+        steps.append(op(h, "qos"))
+    steps.append({"do": "closeconn"})
+    return {"kind": "consumer-drop", "cfg": {}, "steps": steps}
+
+
 # --------------------------------------------------------------------------- C13
 def listeners(rng, i):
     n = rng.choice([1, 2])
@@ -397,7 +419,7 @@ def chanclose(rng, i):
     return {"kind": "chanclose", "cfg": {}, "steps": steps}
 
 
-FAMILIES = {"rpc": rpc, "content": content, "consumer": consumer, "listeners": listeners,
+FAMILIES = {"consumer_drop": consumer_drop, "rpc": rpc, "content": content, "consumer": consumer, "listeners": listeners,
             "connclose": connclose, "chanclose": chanclose}
 
 
